@@ -697,6 +697,8 @@ class Interp:
             return False
         if text.startswith('"'):
             return bytes(text[1:-1], 'utf-8').decode('unicode_escape') if '\\' in text else text[1:-1]
+        if text.startswith('b"'):
+            return Opaque('bytes', text)
         if text.startswith("'"):
             s = text[1:-1]
             if s.startswith('\\'):
